@@ -6,6 +6,7 @@ inner handler `f : σ → Msg → Inner σ ε` (so they do not depend on what th
 for every history and every message.
 -/
 import P2.Model.SpacesGuard
+import P2.Extracted.C39
 
 namespace P2.C39
 open P2.SpacesGuard
@@ -185,6 +186,24 @@ theorem c39_orig_application_reemits :
     let st1 := (processOrig chatty (emptySt 0) m).1
     (processOrig chatty st1 m).2 = .ok [()] ∧ (processOrig chatty st1 m).1.inner = 2 := by
   decide
+
+/-! ## The key-bundle guard must cover EVERY stored bundle, not only the author's latest
+
+`c39_idempotent_keybundle` above is stated for any `(author, bundle)` in the registry. A guard that compares with
+the author's latest bundle only re-emits for an older bundle that is stored just the same: -/
+
+theorem c39_latest_only_guard_reemits :
+    let b1 : Msg := { kind := .keyBundle, id := 1, author := 7, bundle := 1 }
+    let b2 : Msg := { kind := .keyBundle, id := 2, author := 7, bundle := 2 }
+    let st := (processLatestOnly chatty (processLatestOnly chatty (emptySt 0) b1).1 b2).1
+    ((7, 1) ∈ st.registry) ∧ (processLatestOnly chatty st b1).2 = .ok [()] ∧
+      (processLatestOnly chatty st b2).2 = .ok [] ∧ (process chatty st b1).2 = .ok [] := by
+  decide
+
+/-- The known-bundle check of the source is "add the bundle to a copy of the registry and compare the WHOLE registry"
+    (re-extracted from p2panda-spaces/src/identity.rs on every run; the extraction fails for any other shape). -/
+theorem c39_keybundle_guard_compares_whole_registry_in_source :
+    P2.Extracted.C39.keyBundleKnownCheck = "key_registry_y_i == key_registry_y" := rfl
 
 /-! ## Non-vacuity -/
 
